@@ -79,7 +79,7 @@ def c02(r):
             out.append(F('c02-future-finished', 'FINISHED: the future resolves to the outputs', repr(f)))
         last = p._trace[-1][0] if p._trace else None
         oc = r.prog['fns'].get(last, (0, None))[1] if last is not None else None
-        if r.prog['kind'] == 'proc' and oc is not None and oc[0] == 'stop':
+        if r.prog['kind'] == 'proc' and oc is not None and oc[0] == 'stop' and oc[1] != 'AW':
             if p.result() != oc[1] or p.successful() != bool(oc[2]):
                 out.append(F('c02-result', 'result()/successful() give the last step\'s result',
                              dict(result=p.result(), successful=p.successful(), expected=oc)))
@@ -310,7 +310,7 @@ def c06(r):
             epoch_first.setdefault(ep, val)
         for ep, (i, t) in enumerate(act_idx):
             if ep in epoch_first:
-                want = () if epoch_first[ep] is None else (epoch_first[ep],)
+                want = () if epoch_first[ep] is None else (None,) if epoch_first[ep] == 'N' else (epoch_first[ep],)
                 if tuple(t[1]) != want:
                     out.append(F('c06-resume-value', 'the value of the first resume() is delivered exactly once to the continuation',
                                  dict(epoch=ep, got=t[1], want=want, ops=r.ops)))
@@ -389,7 +389,7 @@ def c13(r):
             if b[0] != oc[1] or tuple(b[2]) != () or len(b[1]) > 1:
                 out.append(F('c13-wait-continuation', 'after Wait(f) and resume(v), f(v) runs', dict(got=b[:3], want_fn=oc[1], ops=r.ops)))
                 break
-            vals = {(() if v is None else (v,)) for v, _ph, _i in accepted} | {(5,)}
+            vals = {(() if v is None else (None,) if v == 'N' else (v,)) for v, _ph, _i in accepted} | {(5,)}
             if tuple(b[1]) not in vals:
                 out.append(F('c13-wait-value', 'after Wait(f) and resume(v), f(v) runs (f() if resumed without a value)',
                              dict(got=b[:3], resumed_with=sorted(map(str, vals)), ops=r.ops))
@@ -403,7 +403,7 @@ def c13(r):
         oc = fns[tr[-1][0]][1]
         lab = p.state.value
         if oc[0] == 'stop':
-            want = f"finished:{'-' if oc[1] is None else oc[1]}:{1 if oc[2] else 0}"
+            want = f"finished:{'-' if oc[1] is None else 99 if oc[1] == 'AW' else oc[1]}:{1 if oc[2] else 0}"
             if r.outcome() != want:
                 out.append(F('c13-stop-result', 'a plain value / Stop / UnsuccessfulResult finishes with that result', dict(got=r.outcome(), want=want, ops=r.ops)))
         elif oc[0] == 'kill':
